@@ -70,8 +70,25 @@ func renderEntries(es []fs.DirEntry) string {
 	return renderList(items)
 }
 
+// modeBits is the permission, setuid, setgid and sticky part of a FileMode in
+// tar's (POSIX) numbering.
+func modeBits(m fs.FileMode) int {
+	b := int(m.Perm())
+	if m&fs.ModeSetuid != 0 {
+		b |= 0o4000
+	}
+	if m&fs.ModeSetgid != 0 {
+		b |= 0o2000
+	}
+	if m&fs.ModeSticky != 0 {
+		b |= 0o1000
+	}
+	return b
+}
+
 func renderInfo(fi fs.FileInfo) string {
-	return fmt.Sprintf("%s %s %d", typeLetter(fi.Mode()), hx.Hex([]byte(fi.Name())), fi.Size())
+	mt := fi.ModTime()
+	return fmt.Sprintf("%s %s %d %d %d.%d", typeLetter(fi.Mode()), hx.Hex([]byte(fi.Name())), fi.Size(), modeBits(fi.Mode()), mt.Unix(), mt.Nanosecond())
 }
 
 // view is the real FS (or a Sub of it) under test.
@@ -122,6 +139,55 @@ func (v view) readdir(p string) string {
 			return errClass(err)
 		}
 		return renderEntries(es)
+	})
+}
+
+// renderOrdered keeps the order of the entries (paging shows it).
+func renderOrdered(es []fs.DirEntry) string {
+	items := make([]string, len(es))
+	for i, e := range es {
+		items[i] = hx.Hex([]byte(e.Name())) + ":" + typeLetter(e.Type())
+	}
+	return renderList(items)
+}
+
+// page opens p and calls ReadDir(n) for every n on the one handle.
+func (v view) page(p string, ns []int) string {
+	return hx.Guard(func() string {
+		f, err := v.sys.Open(p)
+		if err != nil {
+			return errClass(err)
+		}
+		defer f.Close()
+		d, ok := f.(fs.ReadDirFile)
+		if !ok {
+			return "notdir"
+		}
+		var out []string
+		for _, n := range ns {
+			out = append(out, hx.Guard(func() string {
+				es, err := d.ReadDir(n)
+				switch {
+				case err == io.EOF && len(es) == 0:
+					return "E"
+				case err != nil:
+					return "readdirerr"
+				}
+				return renderOrdered(es)
+			}))
+		}
+		return strings.Join(out, ";")
+	})
+}
+
+// readfile is io/fs.ReadFile on the view.
+func (v view) readfile(p string) string {
+	return hx.Guard(func() string {
+		b, err := fs.ReadFile(v.sys, p)
+		if err != nil {
+			return errClass(err)
+		}
+		return fmt.Sprintf("ok %d %d", len(b), fnv(b))
 	})
 }
 
@@ -219,10 +285,7 @@ func (v view) tables() string {
 		if k, _ := kindOf(n.Typeflag); k == 's' || k == 'l' {
 			link = hx.Hex([]byte(n.Linkname))
 		}
-		d := "n"
-		if n.Sz != 0 {
-			d = fmt.Sprint(n.Size)
-		}
+		d := fmt.Sprintf("%d/%d", n.Size, n.Sz)
 		is[i] = fmt.Sprintf("%s:%s:%s:%s:%s", kindLetter(n.Typeflag), hx.Hex([]byte(n.Name)), link, cs, d)
 	}
 	txt := strings.Join(ls, ",") + " | " + strings.Join(is, ",")
